@@ -29,22 +29,29 @@ impl DistributedWriteRouter {
     /// If the write is for a shard owned by this node, returns None (handle locally).
     /// If the write is for a shard owned by another node, returns the target node info.
     pub async fn route_write(&self, shard_id: &str) -> Result<Option<NodeInfo>> {
-        // Get assigned node for this shard
-        let node_id = self.assignments.assign_shard(shard_id).await?;
+        // The assigned node can turn ineligible between the assignment and the lookup below
+        // (concurrent drain / failure / load change), so retry, but only a bounded number of
+        // times: an unbounded retry never returns when the assignment keeps resolving to an
+        // ineligible node.
+        const MAX_ATTEMPTS: usize = 3;
 
-        // Get node info
-        if let Some(node) = self.nodes.get_node(&node_id).await {
-            if node.can_accept_writes() {
-                debug!("Routing write for shard {} to node {}", shard_id, node_id);
-                return Ok(Some(node));
-            } else {
-                warn!(
-                    "Assigned node {} cannot accept writes, reassigning",
-                    node_id
-                );
-                self.assignments.unassign_shard(shard_id).await;
-                // Retry assignment (boxed to avoid infinite recursion)
-                return Box::pin(self.route_write(shard_id)).await;
+        for _ in 0..MAX_ATTEMPTS {
+            // Get assigned node for this shard
+            let node_id = self.assignments.assign_shard(shard_id).await?;
+
+            // Get node info
+            match self.nodes.get_node(&node_id).await {
+                Some(node) if node.can_accept_writes() => {
+                    debug!("Routing write for shard {} to node {}", shard_id, node_id);
+                    return Ok(Some(node));
+                }
+                _ => {
+                    warn!(
+                        "Assigned node {} cannot accept writes, reassigning",
+                        node_id
+                    );
+                    self.assignments.unassign_shard(shard_id).await;
+                }
             }
         }
 
